@@ -10,16 +10,30 @@
 #include <errno.h>
 #include <string.h>
 #include <arpa/inet.h>
+#ifdef NANOLANG_VERIF
+#include <stdlib.h>
+/* H4: private socket/pid directory so a verification run talks to its own daemon. */
+static const char *nlv_vmd_dir(void) {
+    const char *d = getenv("NANOLANG_VERIF_VMD_DIR");
+    return (d && d[0]) ? d : NULL;
+}
+#endif
 
 /* ========================================================================
  * Path helpers
  * ======================================================================== */
 
 void vmd_socket_path(char *buf, size_t size) {
+#ifdef NANOLANG_VERIF
+    if (nlv_vmd_dir()) { snprintf(buf, size, "%s/vmd.sock", nlv_vmd_dir()); return; }
+#endif
     snprintf(buf, size, "/tmp/nanolang_vm_%u.sock", (unsigned)getuid());
 }
 
 void vmd_pid_path(char *buf, size_t size) {
+#ifdef NANOLANG_VERIF
+    if (nlv_vmd_dir()) { snprintf(buf, size, "%s/vmd.pid", nlv_vmd_dir()); return; }
+#endif
     snprintf(buf, size, "/tmp/nanolang_vm_%u.pid", (unsigned)getuid());
 }
 
